@@ -12,7 +12,7 @@
              C17_trunc_between, C17_round_between, C17_round_int (the cast of fix 056e54b), C17_bilinear_at_most_four
   matrix   : C17_matrix_assoc, C17_matrix_one, C17_matrix_apply_mul, C17_matrix_inverse, C17_matrix_maps_back,
              C17_translate_scale_compose, C17_rotate_compose   (any field; cos/sin enter as an opaque pair)
-             C17_matrix_mul_assign (operator*=), C17_matrix_chain, C17_matrix_chain_apply (histories of *=, any list), C17_matrix_rotate_about
+             C17_matrix_mul_assign (operator*=), C17_matrix_chain, C17_matrix_chain_apply (histories of *=, any list), C17_resample_composed, C17_matrix_rotate_about
   (theorems over the TRANSLATED matrix3x2 kernels: Props/C17Kernel.lean)
   Floating point: every theorem is about exact arithmetic (Rat / an arbitrary field); the code's IEEE operation
   sequence is reproduced by the executable model and compared bit for bit -- partial (float).
@@ -473,6 +473,16 @@ theorem C17_matrix_chain_apply (start : M32 K) (ms : List (M32 K)) (p : K × K) 
     rw [ih (M32.mulAssign start x)]
     congr 1
     exact C17_matrix_apply_mul start x p
+
+/-- `resample_pixels` given a map that was composed step by step with `*=` (any history): every destination pixel is the sample at
+    the point obtained by applying the steps one after the other to `(x, y)`, or keeps its old value -/
+theorem C17_resample_composed {P : Type} (sample : K × K → Option P) (cast : Int → K) (old : Int → Int → P)
+    (start : M32 K) (ms : List (M32 K)) (dw dh : Nat) :
+    resample sample (fun xy => M32.apply (M32.chain start ms) (cast xy.1, cast xy.2)) old dw dh =
+    resample sample (fun xy => ms.foldl (fun q m => M32.apply m q) (M32.apply start (cast xy.1, cast xy.2))) old dw dh := by
+  congr 1
+  funext xy
+  exact C17_matrix_chain_apply start ms _
 
 /-- textbook composition "rotate about a centre": `I *= translate(-cx,-cy); *= rotate(c,s); *= translate(cx,cy)` fixes the centre
     and maps `p` to `centre + R (p - centre)` -/
